@@ -62,6 +62,9 @@ class RecordingTransport(AbstractUDPTransport):
         return p
 
 
+_SM = None
+
+
 class ProxyEnv:
     """One viewer association, one session, one region with an open circuit."""
     CLIENT = ("127.0.0.1", 1)
@@ -71,9 +74,16 @@ class ProxyEnv:
                  swallow: bool = True, logger=None):
         self.clock = VirtualClock()
         self.clock.install()
-        self.sm = SessionManager(ProxySettings())
-        if logger is not None:
-            self.sm.message_logger = logger
+        # One SessionManager per process: its constructor creates ~20 multiprocessing semaphores/queues,
+        # which serialises badly across 16 replay workers.  All per-scenario state lives in sessions.
+        global _SM
+        if _SM is None:
+            _SM = SessionManager(ProxySettings())
+        self.sm = _SM
+        self.sm.sessions.clear()
+        self.sm.addon_ctx.clear()
+        self.sm.pending_leap_clients.clear()
+        self.sm.message_logger = logger
         AddonManager.init([], self.sm, addons or [], swallow_addon_exceptions=swallow)
         self.session = self.sm.create_session({
             "session_id": UUID(int=1), "secure_session_id": UUID(int=2), "agent_id": UUID(int=3),
